@@ -47,8 +47,9 @@ def freshNames (c : Nat) : Nat → List String
 
 /-- `N` for a name spelled `arg_N` (decimal digits only) -/
 def argIdx? (s : String) : Option Nat :=
-  if s.startsWith "arg_" then
-    let d := s.toList.drop 4
+  let l := s.toList
+  if l.take 4 = ['a', 'r', 'g', '_'] then
+    let d := l.drop 4
     if d.isEmpty || !d.all Char.isDigit then Option.none
     else some (d.foldl (fun n ch => 10 * n + (ch.toNat - '0'.toNat)) 0)
   else Option.none
